@@ -17,12 +17,13 @@ PROPERTY = "C14"
 
 TRANSPARENT = ["evict_sf", "evict_runner", "evict_sv_memo", "evict_global_memo", "evict_n3lo_memo",
                "clock_jump", "clock_back", "clock_freeze", "refresh_now"]
-FAILING = ["interrupt_conv", "interrupt_sv", "interrupt_console"]
+FAILING = ["interrupt_conv", "interrupt_sv", "interrupt_console", "interrupt_line"]
 FAULT_SITE = {
     "evict_sf": "get_esf", "evict_runner": "get_esf", "evict_sv_memo": "get_esf",
     "evict_global_memo": "get_esf", "clock_jump": "clock", "clock_back": "clock",
     "clock_freeze": "clock", "refresh_now": "progress", "interrupt_conv": "conv",
     "interrupt_sv": "sv_fill", "interrupt_console": "console", "evict_n3lo_memo": "n3lo_memo",
+    "interrupt_line": "line",
 }
 FAULT_CONFIGS = ["none", "transparent", "failing", "all"]
 
@@ -108,38 +109,70 @@ def _ref_cost(th, ob, lst, jit):
     return c
 
 
-def gen_faults(rng, opkind, enabled, rate):
-    """Fault decisions for one op (explicit site/call/do)."""
+def est_sites(opkind, th, ob, scope, first):
+    """Rough number of consultations per seam site an op will make (from what generation knows:
+    points in scope, grid size, TMC, cross sections, whether the runner was already asked).  Only used
+    to aim fault decisions at call indices that exist; wrong guesses just leave a decision unfired."""
+    n_nodes = len(ob["interpolation_xgrid"])
+    pto = th.get("PTODIS") if th.get("PTODIS") is not None else th["PTO"]
+    tmc = th.get("TMC", 0)
+    n_sf = sum(len(p) for n, p in scope if not cards.is_xs(n))
+    n_xs = sum(len(p) for n, p in scope if cards.is_xs(n))
+    est = {}
+    if opkind == "new_runner":
+        est["get_esf"] = n_sf
+        est["line"] = 90 + 40 * (n_sf + n_xs)
+        return est
+    per_sf_esf = {0: 0, 1: 1 + n_nodes, 2: 2, 3: 1 + 2 * n_nodes}[tmc]
+    est["get_esf"] = n_sf * per_sf_esf + n_xs * (3 + 3 * per_sf_esf)
+    fresh = first or tmc != 0
+    conv_per_esf = n_nodes * (pto + 1) * 3
+    n_esf = n_sf * max(1, per_sf_esf) + n_xs * 3 * max(1, per_sf_esf)
+    est["conv"] = int(n_esf * conv_per_esf * (1.0 if fresh else 0.0))
+    fact = th.get("FactScaleVar", True) is not False and pto >= 1
+    est["sv_fill"] = ({1: 4, 2: 12, 3: 12}.get(pto, 0) if (fact and first) else 0)
+    if fact and first:
+        est["conv"] += est["sv_fill"] * n_nodes * n_nodes
+    if opkind == "get_result":
+        est["console"] = 24
+        est["clock"] = 2 + est["sv_fill"] * 2
+        est["progress"] = n_sf + n_xs
+    else:
+        est["console"] = 0
+        est["clock"] = est["sv_fill"] * 2
+        est["progress"] = 0
+    if pto >= 3:
+        est["n3lo_memo"] = (n_sf + 3 * n_xs) * 4 if fresh else 0
+    est["line"] = (50 if opkind == "get_result" else 5) + (n_sf + n_xs) * 12 \
+        + int(n_esf * 45 * (pto + 1) * (1.0 if fresh else 0.05))
+    return est
+
+
+def gen_faults(rng, opkind, enabled, rate, est=None):
+    """Fault decisions for one op (explicit site/call/do), aimed at call indices the op is
+    expected to reach (est_sites)."""
     out = []
-    if not enabled or opkind in ("scribble",):
+    if not enabled or opkind in ("scribble", "drop_cache", "evict_global"):
         return out
+    est = est or {}
     used = set()
     n = 0
-    while rng.random() < rate and n < 3:
-        n += 1
+    tries = 0
+    while rng.random() < rate and n < 3 and tries < 12:
+        tries += 1
         do = rng.choice(enabled)
         site = FAULT_SITE[do]
-        if opkind == "new_runner" and site not in ("get_esf",):
+        hi = est.get(site, 0)
+        if hi <= 0:
+            # this op is not expected to reach that site at all: aim elsewhere
+            rate = max(rate, 0.85)
             continue
-        if opkind in ("drop_cache", "evict_global"):
-            continue
-        if opkind in ("sf_get_result", "elem_get_result") and site in ("console", "progress", "clock") \
-                and do not in ("clock_jump", "clock_back", "clock_freeze"):
-            continue
-        if site == "get_esf":
-            call = int(rng.random() ** 2 * 40)
-        elif site == "conv":
-            call = int(math.exp(rng.random() * math.log(3000.0))) - 1
-        elif site == "sv_fill":
-            call = rng.randrange(0, 8)
-        elif site == "n3lo_memo":
-            call = int(rng.random() ** 2 * 60)
-        elif site == "console":
-            call = rng.randrange(0, 30)
-        elif site == "clock":
-            call = rng.randrange(0, 4)
+        n += 1
+        if site in ("conv", "line"):
+            # log-uniform over the expected range: early and late interrupts both matter
+            call = int(math.exp(rng.random() * math.log(hi * 1.2 + 1.0))) - 1
         else:
-            call = rng.randrange(0, 6)
+            call = int(rng.random() * hi * 1.2)
         if (site, call) in used:
             continue
         used.add((site, call))
@@ -266,7 +299,7 @@ def generate(run_seed, fault_config="all", jit=False, budget=4.0, max_pto=2, all
     # evictions are the interesting transparent faults; weight them up
     weighted = []
     for k in enabled:
-        weighted.extend([k] * (3 if k.startswith("evict") or k == "interrupt_conv" else 1))
+        weighted.extend([k] * (3 if k.startswith("evict") or k in ("interrupt_conv", "interrupt_line") else (2 if k == "interrupt_sv" else 1)))
     rate = frng.choice([0.3, 0.5, 0.8])
 
     # --- ops: sequential generation over an abstract state; each op attributed to a client
@@ -332,7 +365,18 @@ def generate(run_seed, fault_config="all", jit=False, budget=4.0, max_pto=2, all
         elif kind == "scribble":
             op["handle"] = ops_rng.choice(handles)
             op["mode"] = ops_rng.choice(["values", "orders", "kin", "all"])
-        op["faults"] = gen_faults(frng, kind, weighted, rate)
+        est = None
+        if kind in ("new_runner", "get_result", "sf_get_result", "elem_get_result"):
+            s_, lst_ = runners[op["runner"]]
+            if kind in ("new_runner", "get_result"):
+                scope = lst_
+            elif kind == "sf_get_result":
+                scope = [[n, p] for n, p in lst_ if n == op["obs"]]
+            else:
+                scope = [[n, p[op["idx"]:op["idx"] + 1]] for n, p in lst_ if n == op["obs"]]
+            first = kind != "new_runner" and runs_done.get(op["runner"], 0) <= 1
+            est = est_sites(kind, settings[s_]["theory"], settings[s_]["obs"], scope, first)
+        op["faults"] = gen_faults(frng, kind, weighted, rate, est)
         ops.append(op)
         if not pending and sum(1 for o in ops if o["op"].endswith("get_result")) >= 2 and ops_rng.random() < 0.12:
             break
@@ -524,9 +568,14 @@ class Execution:
             for i, op in enumerate(self.trace["ops"]):
                 self.sched.begin_op(i, op.get("faults"))
                 nfired0 = len(self.sched.fired)
+                tracing = any(f.get("site") == "line" for f in op.get("faults") or [])
                 try:
+                    if tracing:
+                        self.seams.lines.start()
                     self.do_op(i, op)
                 finally:
+                    if tracing:
+                        self.seams.lines.stop()
                     self.sched.end_op()
                 fired_now = self.sched.fired[nfired0:]
                 self.check_held(i)
@@ -559,6 +608,7 @@ class Execution:
                 self.runners[op["runner"]] = {"runner": None, "settings": s, "observables": op["observables"]}
                 self.interrupted_ops += 1
                 self.log(i, kind, op["runner"], "interrupted")
+                return
             except Exception as e:  # noqa: BLE001
                 self.runners[op["runner"]] = {"runner": None, "settings": s, "observables": op["observables"]}
                 self.requests.append({"op": i, "kind": "construct", "settings": s,
